@@ -945,6 +945,46 @@ pub fn history_strategy(max_len: usize, max_ops: usize, with_session_ops: bool) 
         .boxed()
 }
 
+/// Histories that push one direction through the 1024 sequence wrap: bursts of acknowledged vital
+/// chunks interleaved with ordinary (faulty) traffic.
+pub fn wrap_history_strategy(max_len: usize) -> BoxedStrategy<Vec<Op>> {
+    let block = (0u8..2, 250u16..300, proptest::collection::vec(op_strategy(max_len), 0..12)).prop_map(|(side, n, mut ops)| {
+        let mut v = vec![Op::Burst { side, n }];
+        v.append(&mut ops);
+        // settle so that the next burst is not refused by the unacked limit
+        for _ in 0..2 {
+            v.push(Op::DeliverAll { dir: 0 });
+            v.push(Op::DeliverAll { dir: 1 });
+            v.push(Op::Advance { dt: 7 });
+            v.push(Op::Tick { side: 0 });
+            v.push(Op::Tick { side: 1 });
+        }
+        v.push(Op::DeliverAll { dir: 0 });
+        v.push(Op::DeliverAll { dir: 1 });
+        v
+    });
+    (0u8..2, proptest::collection::vec(block, 5..8), proptest::collection::vec(op_strategy(max_len), 0..40))
+        .prop_map(|(first, blocks, mut tail)| {
+            let mut v = handshake_prelude();
+            // the acceptor goes online with the prelude's chunk; make sure both can burst
+            v.push(Op::Send { side: 1, vital: true, len: 9, fill: 2 });
+            v.push(Op::Flush { side: 1 });
+            v.push(Op::DeliverAll { dir: 1 });
+            for (i, mut b) in blocks.into_iter().enumerate() {
+                if i < 5 {
+                    // keep the first five bursts on one side so that it certainly wraps
+                    if let Op::Burst { side, .. } = &mut b[0] {
+                        *side = first;
+                    }
+                }
+                v.append(&mut b);
+            }
+            v.append(&mut tail);
+            v
+        })
+        .boxed()
+}
+
 /// Ops that complete a handshake on a well-behaved network and bring both sides online
 /// (the acceptor goes online with the first chunk packet it receives).
 pub fn handshake_prelude() -> Vec<Op> {
